@@ -87,20 +87,24 @@ pub trait ParseAttribute: Sized {
 }
 
 fn parse_attr<T: ParseAttribute>(attr: &syn::Attribute, target: &mut T) -> Result<()> {
-    let mut errors = Error::accumulator();
     match &attr.meta {
         syn::Meta::List(data) => {
-            for item in NestedMeta::parse_meta_list(data.tokens.clone())? {
-                if let NestedMeta::Meta(ref mi) = item {
-                    errors.handle(target.parse_nested(mi));
-                } else {
-                    panic!("Wasn't able to parse: `{:?}`", item);
+            let items = NestedMeta::parse_meta_list(data.tokens.clone())?;
+            let mut errors = Error::accumulator();
+            for item in items {
+                match item {
+                    NestedMeta::Meta(ref mi) => {
+                        errors.handle(target.parse_nested(mi));
+                    }
+                    NestedMeta::Lit(ref lit) => {
+                        errors.push(Error::unsupported_format("literal").with_span(lit));
+                    }
                 }
             }
 
             errors.finish()
         }
-        item => panic!("Wasn't able to parse: `{:?}`", item),
+        item => Err(Error::custom("Expected `#[darling(...)]`").with_span(item)),
     }
 }
 
